@@ -1386,7 +1386,12 @@ pub mod implementations {
             bail!("`lookup` requires a name argument");
         };
 
-        let primitive = ctx.pop().unwrap();
+        // a present optional handed out by a built-in arrives boxed; its members are those of
+        // the value it holds
+        let primitive = match ctx.pop().unwrap().move_out_of_heap_primitive()? {
+            Primitive::Optional(Some(ref inner)) => inner.as_ref().clone(),
+            other => other,
+        };
 
         let result = match primitive.lookup(name)? {
             Ok(result) => result,
@@ -1411,7 +1416,13 @@ pub mod implementations {
 
         let var = ctx.load_local(name).with_context(|| format!("load before store (`{name}` not in this stack frame)\nframe `{:?}`'s variables:\n{:?}", ctx.rced_call_stack().borrow().get_frame_label(), ctx.get_frame_variables()))?;
 
-        ctx.push_front(var.primitive().clone());
+        // the receiver of a method call, opened like in `lookup`
+        let receiver = match var.primitive().clone() {
+            Primitive::Optional(Some(ref inner)) => inner.as_ref().clone(),
+            other => other,
+        };
+
+        ctx.push_front(receiver);
 
         Ok(())
     }
